@@ -676,8 +676,15 @@ impl Emit for ModuleFunctions {
             ));
         }
         cx.code_transform.function_ranges.sort_by_key(|i| i.0);
-        // FIXME: code section start in DWARF debug information expects 2 bytes before actual code section start.
-        cx.code_transform.code_section_start = code_section_start_offset - 2;
+        // Code-relative (DWARF) addresses are measured from the start of the code section's contents, i.e. from
+        // the function count that precedes the first entry, exactly like `code_section_offset` on the parse side.
+        let mut func_count_leb = Vec::new();
+        leb128::write::unsigned(
+            &mut func_count_leb,
+            cx.code_transform.function_ranges.len() as u64,
+        )
+        .unwrap();
+        cx.code_transform.code_section_start = code_section_start_offset - func_count_leb.len();
         cx.code_transform.instruction_map = instruction_map.into_iter().collect();
     }
 }
